@@ -88,6 +88,7 @@ RunRecord run_driver(const sim::Json& sc) {
   g_script = sc["script"].is_obj() ? sc["script"] : sim::Json::object();
   g_dual_mode = (int)g_script["dual_mode"].as_int(0);
   g_cb_calls = 0;
+  g_session = 0;
 
   normalise_signal_statics();
 
@@ -126,6 +127,12 @@ RunRecord run_driver(const sim::Json& sc) {
         try {
           mp::BackendApp app(CreateSimBackend());
           rec.ret = app.Run(argv.data());
+          // history: the application hands the same backend another model file (here: the same one again)
+          for (long q = 0; q < sc["rerun_backend"].as_int(0); ++q) {
+            g.event("RERUN_BACKEND " + std::to_string(q));
+            try { app.GetBackend().RunFromNLFile(sim::scratch_dir() + "stub.nl", sim::scratch_dir() + "stub"); g.event("RERUN_DONE"); }
+            catch (const std::exception& e) { g.event(std::string("RERUN_FAILED ") + e.what()); }
+          }
         } catch (const mp::Error& e) { fmt::print(stderr, "Error: {}\n", e.what()); rec.ret = e.exit_code(); }
         catch (const std::exception& e) { fmt::print(stderr, "Error: {}\n", e.what()); rec.ret = EXIT_FAILURE; }
       } else
